@@ -83,6 +83,8 @@ def cases(tier, seed):
     for ci in (1, 2, 4, 7, 9, 13):
         for perm in ("reverse", "roll", "interleave", "sorted_e"):
             yield dict(cfg=ci, pts=[], fam="perm_big", perm=perm)
+    for ci in (4, 8, 9, 10, 11):   # Trend, KNeighbors k = 1 / 3 mean / 2 median, Linear
+        yield dict(cfg=ci, pts=[], fam="int_big")
 
 
 def _spec(ci):
@@ -220,6 +222,29 @@ def run(case, rec):
                       % (spec[0], err_, sc_, case["perm"]))
         rec.cls("%s/perm_big" % spec[0])
         return
+    if case["fam"] == "int_big":
+        # integer-dtype data and a query grid of more than 2^18 / k points (round 8, seed C04-15: block-wise gathering into a buffer of the
+        # data's dtype): the prediction must equal the one for the same values as float64
+        i = np.arange(60, dtype=float)
+        be = 12.0 * np.modf(i * 0.6180339887498949)[0]
+        bn = 12.0 * np.modf(i * 0.7548776662466927)[0]
+        nc_ = ncomp(spec)
+        bd = [np.round(7.0 * be - 3.0 * bn + 11.0 * k_) for k_ in range(nc_)]
+        qe_, qn_ = np.meshgrid(np.linspace(-1, 13, 410), np.linspace(-1, 13, 330))
+        fac = lambda: _build(spec, 12.0, 60, "ctor")
+        a = _run(rec, fac, (be, bn), bd, (qe_, qn_), "float64 data, 135 300 query points")
+        for it in (np.int64, np.int16):
+            b = _run(rec, fac, (be, bn), [d_.astype(it) for d_ in bd], (qe_, qn_), "%s data, 135 300 query points" % np.dtype(it).name)
+            if a is None or b is None:
+                return
+            for x_, y_ in zip(a, b):
+                rec.check(x_.shape == y_.shape == qe_.shape, "prediction shape %s / %s != query shape %s" % (x_.shape, y_.shape, qe_.shape))
+                err_ = float(np.nanmax(np.abs(x_ - y_)))
+                rec.check(err_ <= 1e-9 * 200.0 and bool(np.array_equal(np.isnan(x_), np.isnan(y_))),
+                          "%s: %s data give predictions that differ by %.3g from those for the same values as float64 on a 330 x 410 grid"
+                          % (spec[0], np.dtype(it).name, err_))
+        rec.cls("%s/int_big" % spec[0])
+        return
     npts = len(pts)
     ext = 12.0
     e = np.array([p[0] for p in pts], dtype=float)
@@ -232,6 +257,13 @@ def run(case, rec):
     route = ROUTES[(case["cfg"] + len(case["fam"]) + sum(case["pts"])) % 4]
     factory = lambda: _build(spec, ext, npts, route)
     fam = case["fam"]
+    if fam in ("layout", "dtype", "qshape") and (case["cfg"] + sum(case["pts"])) % 2 == 1:
+        # half of these cases make ALL their executions on ONE estimator instance, refitted each time on the same points in another
+        # representation (round 8, seed C04-16: a per-instance Jacobian cache that the solver scales in place); the others use a new
+        # instance per execution
+        _inst, _factory0 = [], factory
+        factory = lambda: (_inst or _inst.append(_factory0()) or _inst)[0]
+        rec.count("cases_reusing_one_instance", 1)
     rec.cls("%s/%s" % (spec[0], fam))
     tight = np.full(qe.size, 8 * R.EPS) * (dnorm + 1.0)
     base = _run(rec, factory, (e, n), data, (qe, qn), "base")
@@ -304,7 +336,7 @@ def run(case, rec):
         qie = np.array([q[0] for q in QI], dtype=float); qin = np.array([q[1] for q in QI], dtype=float)
         base_i = _run(rec, factory, (e, n), data, (qie, qin), "base (integer-valued query)")
         tol_i = np.full(qie.size, 8 * R.EPS * scale_pred) + 8 * R.EPS * max([float(np.nanmax(np.abs(b))) if np.isfinite(b).any() else 0.0 for b in (base_i or [np.zeros(1)])])
-        for it in (np.int64, np.int32):
+        for it in (np.int64, np.int32, np.int16):   # int16: small integer types must not be computed in single precision (defect D10)
             nm = np.dtype(it).name
             other = _run(rec, factory, (e.astype(it), n.astype(it)), data, (qe, qn), "int coords")
             _same(rec, base, other, tight, "%s coordinates" % nm)
@@ -314,6 +346,19 @@ def run(case, rec):
             _same(rec, base_i, other, tol_i, "%s query coordinates" % nm)
             other = _run(rec, factory, (e.astype(it), n.astype(it)), [d.astype(it) for d in data], (qie.astype(it), qin.astype(it)), "all int")
             _same(rec, base_i, other, tol_i, "%s coordinates, data and query" % nm)
+        # integer coordinates of SURVEY magnitude (metres on a projected grid: offsets of 5e5 / 7e6, spacing 1e4) with an integer dtype:
+        # squares and powers of coordinates or of their differences leave int32 (and, for Trend degree >= 3, int64) - defect D10
+        es, ns_ = e * 1.0e4 + 5.0e5, n * 1.0e4 + 7.0e6
+        qes, qns = qe * 1.0e4 + 5.0e5, qn * 1.0e4 + 7.0e6
+        spec_s = [spec[0], dict(spec[1])]
+        fac_s = lambda: _build(spec_s, ext * 1.0e4, npts, route)
+        if not spec[1].get("force_sep"):
+            base_s = _run(rec, fac_s, (es, ns_), data, (qes, qns), "base (survey magnitudes)")
+            if base_s is not None:
+                tol_s = np.maximum(tight, 1e-9 * scale_pred)
+                for it in (np.int64, np.int32):
+                    other = _run(rec, fac_s, (es.astype(it), ns_.astype(it)), data, (qes, qns), "%s survey coordinates" % np.dtype(it).name)
+                    _same(rec, base_s, other, tol_s, "%s coordinates of survey magnitude (5e5 / 7e6, spacing 1e4)" % np.dtype(it).name)
         # integer-valued weights passed with an integer dtype (only estimators that use weights)
         if spec[0] in ("Spline", "Trend", "VectorSpline2D", "Chain") and (spec[1].get("damping") is not None or spec[0] in ("Trend", "Chain")):
             wv = np.array([1.0 + (i * 3) % 4 for i in range(npts)])
